@@ -523,6 +523,38 @@ pub fn run(cx: &mut Ctx) {
         }
     }
 
+    // ---- 2c. near-miss keys: a deregistration / acknowledgement that differs from the registered
+    //          token / message id / endpoint / path in one bit, one byte of length, or case
+    for tl in 0..=8usize {
+        let tok: Vec<u8> = (0..tl).map(|i| 0x40 + 0x11 * i as u8).collect();
+        let mut variants: Vec<Vec<u8>> = vec![];
+        for i in 0..tl {
+            for bit in 0..8 {
+                let mut t = tok.clone();
+                t[i] ^= 1 << bit;
+                variants.push(t);
+            }
+        }
+        if tl > 0 {
+            variants.push(tok[..tl - 1].to_vec());
+            variants.push(tok[1..].to_vec());
+        }
+        if tl < 8 {
+            variants.push([tok.clone(), vec![0]].concat());
+            variants.push([vec![0], tok.clone()].concat());
+        }
+        for v in variants {
+            let ops = vec![Op::Reg(1, "t".into(), tok.clone()), Op::Reg(2, "t".into(), v.clone()), Op::Dereg(1, "t".into(), v.clone()), Op::Dereg(2, "t".into(), tok.clone()), Op::Dereg(1, "T".into(), tok.clone()), Op::Dereg(1, "t/".into(), tok.clone()), Op::Dereg(1, "t".into(), tok.clone())];
+            case_trace(cx, &ops);
+        }
+    }
+    for mid in [0u16, 1, 0x00ff, 0x0100, 0x7fff, 0x8000, 0xffff] {
+        for d in [1u16, 0x100, 0x8000, 0xffff] {
+            let ops = vec![Op::Limit(1), Op::Reg(1, "m".into(), vec![1]), Op::Reg(3, "m".into(), vec![3]), Op::Chg("m".into(), mid, true), Op::Ack(1, mid ^ d), Op::Ack(2, mid), Op::Ack(3, mid), Op::Chg("m".into(), mid.wrapping_add(1), true), Op::Chg("m".into(), mid.wrapping_add(2), true)];
+            case_trace(cx, &ops);
+        }
+    }
+
     // ---- 3. directed long histories at limits 10, 254, 255 (and 0, 1)
     for &lim in &[0u8, 1, 10, 254, 255] {
         for con_every in [1u32, 2] {
